@@ -189,6 +189,21 @@ def build_base(rnd):
             size = total // 8
         b.fields.append((tag, lines))
         pos += size
+    # one-byte elements need no byte order, whether the width is written (UInt:8[]) or comes from a named
+    # 8-bit bits type; also with no $default byte_order anywhere in scope
+    if rnd.random() < 0.5:
+        nm = "By8x"
+        blines8, _ = gen_bits_type(rnd, nm, enums, 8)
+        b.types.append((nm, blines8))
+        n = rnd.choice([1, 2, 4])
+        form = rnd.choice(["%s[%d]" % (nm, n), "%s[]" % nm, "%s" % nm])
+        size = n if "[" in form else 1
+        b.fields.append(("bytearr", ["  %d [+%d]  %s  ba%d" % (pos, size, form, pos)]))
+        pos += size
+        if not default_bo:
+            # a structure with NO byte order in scope at all: everything in it is one byte wide
+            n2 = rnd.choice([2, 3, 4])
+            b.types.append(("NoBo", ["struct NoBo:", "  0 [+%d]  %s[%s]  many" % (n2, nm, rnd.choice(["", str(n2)])), "  %d [+1]  %s  one" % (n2, nm), "  %d [+2]  UInt:8[2]  raw" % (n2 + 1), "  %d [+1]  UInt  last" % (n2 + 3)]))
     # fixed-size types in fields whose size is only known at run time: accepted whenever the field CAN be
     # large enough (upper bound of the size >= size of the type); the boundary is "exactly as large"
     if rnd.random() < 0.5:
